@@ -201,6 +201,43 @@ pub fn main(args: &[String]) {
                 rep.violation(&format!("the replay child did not finish ({:?})", o.status), json!({"kind": "charstring-crash"}));
             }
         }
+        Some("index") => {
+            // hostile INDEX byte strings enumerated by Index.tla with the specification's answers for get(0..=count+1)
+            let path = arg_after(args, "--cases").expect("--cases");
+            fvcore::tlc_stream(&path, &["CASE"], |_, c| {
+                rep.evaluations += 1;
+                let bytes = bytes_of(&c["bytes"]);
+                let case = json!({"kind": "index-case", "bytes": bytes});
+                let want = &c["answers"];
+                let got = guarded(|| -> Value {
+                    match Index::new(&bytes, false) {
+                        Err(_) => json!({"ok": false, "gets": []}),
+                        Ok(ix) => {
+                            let n = ix.count() as usize + 2;
+                            let gets: Vec<Value> = (0..n).map(|i| match ix.get(i) {
+                                Ok(b) => json!({"err": "", "bytes": b}),
+                                Err(e) => json!({"err": match e { Error::InvalidIndexOffsetSize(_) => "InvalidIndexOffsetSize", Error::ZeroOffsetInIndex => "ZeroOffsetInIndex", Error::Read(_) => "Read", _ => "Other" }, "bytes": []}),
+                            }).collect();
+                            json!({"ok": true, "gets": gets})
+                        }
+                    }
+                });
+                match got {
+                    Err(p) => rep.violation(&format!("reading an INDEX panicked: {p}"), case),
+                    Ok(g) => {
+                        if &g != want {
+                            rep.add("outcome_differs_from_model", 1);
+                            if rep.samples.len() < 4 {
+                                rep.sample(json!({"bytes": bytes, "model": want, "real": g}));
+                            }
+                        } else {
+                            rep.distinct += 1;
+                        }
+                        ev.push(json!({"op": "index", "bytes": bytes, "answers": g}));
+                    }
+                }
+            });
+        }
         Some("corpus") => {
             use read_fonts::TableProvider;
             let per_font: usize = arg_after(args, "--per-font").map(|s| s.parse().unwrap()).unwrap_or(40);
